@@ -132,7 +132,11 @@ def verify(sc, m: Material, tok):
             return "ok", R.jdump(t.claims), t.header, json.dumps(t.claims, sort_keys=True)
         mod = jws if ep == "jws" else rfc7797
         if ser == "compact":
-            o = mod.deserialize_compact(tok, key, algorithms=algs)
+            oob = sc.get("oob", "none")
+            if oob != "none":
+                o = mod.deserialize_compact(tok, key, m.P[1 if oob == "P1" else 2], algorithms=algs)
+            else:
+                o = mod.deserialize_compact(tok, key, algorithms=algs)
             return "ok", o.payload, o.protected, None
         o = mod.deserialize_json(tok, key, algorithms=algs)
         mem = o.members[0] if o.members else None
@@ -185,14 +189,15 @@ def run_batch(args):
 
 def sig_of(sc, what) -> str:
     ed = ";".join("/".join(str(x) for x in e) for e in sc["edits"]) or "none"
-    return f"jws:{sc['ep']}.{sc['ser']} raw={sc['raw']} edits=[{ed}] nsig={len(sc['es'])} key={sc['key']} -> {what}"
+    oob = "" if sc.get("oob", "none") == "none" else f" oob={sc['oob']}"
+    return f"jws:{sc['ep']}.{sc['ser']} raw={sc['raw']} edits=[{ed}] nsig={len(sc['es'])} key={sc['key']}{oob} -> {what}"
 
 
 def load_scenarios(ctx: Ctx):
     rs = ctx.tlc_many([("Jws", "Jws_FALSE", {"timeout": 900}), ("Jws", "Jws_TRUE", {"timeout": 900})])
     ctx.tlc_many([("Jws", "Jws_dev_" + d, {"timeout": 600, "expect_violation": True})
-                  for d in ("EmptyListVerifies", "B64FromUnprotected", "SigningInputRebuilt", "FalseNotRaised", "AnySigLength",
-                            "UnprotectedAlgTrusted", "OnlyFirstSignatureChecked")], par=7)
+                  for d in ("OobNotVerified", "EmptyListVerifies", "B64FromUnprotected", "SigningInputRebuilt", "FalseNotRaised", "AnySigLength",
+                            "UnprotectedAlgTrusted", "OnlyFirstSignatureChecked")], par=8)
     scs, seen = [], set()
     for r in rs:
         for c in r.cases:
